@@ -26,12 +26,12 @@ class C01(Check):
     pid = "C01"
     title = "Composition returns a sound abstraction of the exact composition"
     level_text = ("Lean theorems compose_sound_poly_any_sound_table (composition of polyhedral contracts is sound for every wiring, kept set, flag and every tactic order, "
-                  "for any tactic table sound on that order) and compose_sound_poly_partial (the real table over tactics 2, 4, 5, 6), obtained by instantiating the generic "
+                  "for any tactic table sound on that order) and compose_sound_poly (the real table, EVERY tactic order: all six tactics are proved sound, C04), obtained by instantiating the generic "
                   "algebra theorem (C05, interface code regenerated from the source) with the proved specs of the polyhedral primitives (C04 loop soundness, C07 simplify, "
-                  "C03 refines); whole-operation correspondence with PolyhedralIoContract.compose_tactics (result contract at 1e-9, interface order, error kind); for tactics "
-                  "1/3/4 soundness of each run is established by the exact certified judge.")
+                  "C03 refines); whole-operation correspondence with PolyhedralIoContract.compose_tactics (result contract at 1e-9, interface order, error kind); the exact "
+                  "certified judge re-checks the implementation's own result on a sample of every run.")
     lean_modules = ["Pacti.Props.C01"]
-    theorems = ["Pacti.C01.compose_sound_poly_any_sound_table", "Pacti.C01.compose_sound_poly_partial"]
+    theorems = ["Pacti.C01.compose_sound_poly_any_sound_table", "Pacti.C01.compose_sound_poly"]
     quick_n = 400
     thorough_n = 15000
     judge_sample = 120
